@@ -332,3 +332,68 @@ def c14(ctx):
                 "output buffer sized exactly and abutting a guard page (or canaries); relational: count 0 == count 1, shorter output is a prefix. "
                 "class = (outlen, pwlen, saltlen, count). Oracle: RFC 8018 model over the model HMAC.")
     ctx.exhaustive = False
+
+
+# ---------------------------------------------------------------------------------- C15 / C16 / C17
+
+PRNG_ASSUME = ["the 32-byte seed buffer as it stands after the entropy callback returned is taken as the 256-bit entropy_input "
+               "(observed by the callback itself, so the oracle does not depend on how the library pre-fills that buffer)"]
+
+
+@check("C15", "exploration", floor=500)
+def c15(ctx):
+    load_replay(ctx)
+    ctx.model_selfcheck()
+    NH, NR = ctx.q((2500, 200), (100000, 4000))
+    builds = build_set(ctx, ctx.q(["prod", "asan-gcc", "msan"], ["prod", "gcc-O0", "gcc-O2", "clang-O3", "asan-gcc", "asan-clang", "msan"]))
+    run_harness_on(ctx, "h_prng.c", builds, ["--mode", "model", "--p1", NH, "--p2", NR], 16, timeout=3000)
+    ctx.rule = ("random histories init_user(custom) . (generate | feed | reseed | set_limit)* of length <= 12 (thorough 40) with generate sizes "
+                "{0,1,31,32,33,64,100,1000,5000}, limits {0,1,31,32,33,64,100,1024,5000,1 MiB,1 MiB+1,SIZE_MAX}, feeds of 0..299 bytes (NULL for 0), "
+                "customisation NULL/0, 5, 64..163, <64 bytes, scripted deliveries (every third history includes short and zero deliveries). A shadow "
+                "Hash_DRBG over the model hash predicts every output byte AND every entropy request (count, size, byte offset inside the call); first "
+                "divergence is reported with the op index. Relational: different initial seeds + identical feed/reseed material => different streams. "
+                "class = history index (all histories distinct by construction).")
+    ctx.exhaustive = False
+    ctx.assumptions += PRNG_ASSUME
+
+
+@check("C16", "exploration", floor=5000)
+def c16(ctx):
+    load_replay(ctx)
+    L, NR = ctx.q((4, 1500), (6, 40000))
+    builds = build_set(ctx, ctx.q(["prod", "asan-gcc"], ["prod", "gcc-O0", "clang-O3", "asan-gcc"]))
+    if ctx.thorough:
+        # the 1.1 M-sequence enumeration runs on the production object; other builds take length <= 5
+        run_harness_on(ctx, "h_prng.c", builds[:1], ["--mode", "budget", "--p1", L, "--p3", NR], 16, timeout=3000, hname="h_prng-b")
+        run_harness_on(ctx, "h_prng.c", builds[1:], ["--mode", "budget", "--p1", 5, "--p3", NR // 10], 16, timeout=3000, hname="h_prng-b")
+    else:
+        run_harness_on(ctx, "h_prng.c", builds, ["--mode", "budget", "--p1", L, "--p3", NR], 16, timeout=3000, hname="h_prng-b")
+    ctx.rule = ("(a) ALL operation sequences of length <= L over the alphabet {gen 1, gen 32, gen 33, gen 100, feed, reseed, limit 0, limit 1, limit 33, "
+                "limit 64} (sum 10^k), each followed by a 1200-byte drain; (b) random runs of 5..44 operations with limits {0,1,31,32,33,64,100,1024,4096,"
+                "65536,3000,1 MiB,1 MiB+1,SIZE_MAX} and generate sizes up to 70000 (every 16th run up to 5 MiB). Monitor: bytes emitted since the last "
+                "entropy request (callback event; its byte offset inside generate is recovered from a sentinel pre-fill) never exceed 32*max(1,ceil(min(limit,"
+                "1 MiB)/32)) for the limit in force, evaluated after every non-empty emitted segment. Twin monitor: a byte copy of the state with one extra "
+                "feed requests entropy no later than the original. class = sequence index.")
+    ctx.exhaustive = False
+    ctx.extra_cov["exhaustive_subspace"] = "all %d-operation-alphabet sequences of length <= %d on the production object" % (10, L)
+
+
+@check("C17", "fault_enumeration", floor=1000)
+def c17(ctx):
+    load_replay(ctx)
+    ctx.model_selfcheck()
+    NR = ctx.q(300, 20000)
+    builds = build_set(ctx, ctx.q(["prod", "asan-gcc"], ["prod", "gcc-O0", "gcc-O2", "clang-O3", "asan-gcc", "asan-clang"]))
+    run_harness_on(ctx, "h_prng.c", builds, ["--mode", "faults", "--p3", NR], 16, timeout=3000, hname="h_prng-f")
+    if not ctx.replay and ctx.stats.get("null_callback_child_runs", 0) < 6:
+        ctx.inconclusive.append("NULL-callback child runs did not all execute")
+    ctx.rule = ("fault space = sizes delivered by the entropy source over successive requests. ALL 5^4 = 625 patterns over {0,1,16,31,32} for the first "
+                "four requests (init, explicit reseed, two automatic reseeds) x customisation {NULL/0, 5, 100 bytes}, then random patterns over up to 12 "
+                "requests with deliveries 0..32. Per pattern: init/reseed status non-zero iff exactly 32 bytes delivered; all output equals the shadow "
+                "model fed with the bytes actually delivered; 32-byte blocks pairwise distinct and not constant; re-run with different partial bytes gives a "
+                "different stream. NULL callback: forked child, OS entropy call interposed by a deterministic stub (success and EPERM): same status, "
+                "same 2100-byte stream (crossing two automatic reseeds) and same number of OS calls as tinyjambu_prng_init, equal to the model. "
+                "class = pattern index.")
+    ctx.exhaustive = True
+    ctx.extra_cov["exhaustive_subspace"] = "all 625 delivery patterns over the first four entropy requests x 3 customisations"
+    ctx.assumptions += PRNG_ASSUME + ["over-claiming callbacks (return > requested size) violate the callback contract and are not generated"]
